@@ -395,6 +395,25 @@ func (e *Env) ident(name string) CV {
 	if name == "nil" {
 		return CV{K: constant.MakeUnknown()}
 	}
+	if strings.HasPrefix(name, "$range") && e.fr != nil {
+		want := 0
+		fmt.Sscanf(name[6:], "%d", &want)
+		k := 0
+		for _, b := range e.fr.fn.Blocks {
+			for _, in := range b.Instrs {
+				if r, ok := in.(*ssa.Range); ok {
+					k++
+					if k == want {
+						if cv, ok := e.st.cells[r]; ok {
+							return CV{T: cv.T, Ty: intT}
+						}
+						panic(cerr("%s: iterator not live here", name))
+					}
+				}
+			}
+		}
+		panic(cerr("%s: no such range statement", name))
+	}
 	if e.fr != nil {
 		if e.preferParams {
 			if v, ok := e.fr.params[name]; ok {
